@@ -185,6 +185,48 @@ def refine_alts(bi, t, depth=0):
     return [(t, None)]
 
 
+def rule_final_values(ctx, bi, rule, where):
+    """A final result parked in a carrier local (`ret = Poll::Ready(..)`, `break Some(x)`) is what the call returns: on no
+    path from the assignment to the return is a child polled, and no other definition of the carrier overwrites it.
+    (With early `return`s this holds by construction; the single-exit shape needs the `break` that a `return` implied.)"""
+    body = bi.body
+    polls = {s.block for s in bi.all_polls()}
+    n = 0
+    for b, i, rv in bi.assigns_to_return():
+        if rv.get("k") != "use":
+            continue
+        t = bi.T.of_rvalue(rv, 0)
+        if t[0] != "phi":
+            continue
+        L = t[1]
+        defs = [d for d in _live_defs(bi, L)]
+        for d in defs:
+            dt = bi.T._of_def(L, d, 1)
+            kind = classify(dt)[0]
+            if not kind.startswith("Ready"):
+                continue
+            n += 1
+            others = [x[0] for x in defs if x is not d]
+            r = body.reach(body.succs(d[0]), stop_blocks=[b])
+            probs = []
+            if any(x in r for x in polls):
+                probs.append("a child is polled after the result was decided")
+            # an overwrite by a later iteration of the scan: another definition of the carrier reachable without
+            # leaving the loop the result was decided in (what happens after the loop - `if ended == count { ret =
+            # Ready(None) }` - is guarded by the family's own completion rules)
+            lp = body.innermost_loop(d[0])
+            over = []
+            if lp is not None:
+                inside = set(lp[1])
+                r_in = body.reach([x for x in body.succs(d[0]) if x in inside], stop_blocks=[x for x in range(body.n) if x not in inside])
+                over = [x for x in others if x in r_in and x in inside and x != d[0]]
+            if over:
+                probs.append("the decided result can be overwritten before it is returned (%s)" % ", ".join(bi.describe(x) for x in over[:2]))
+            ctx.check(not probs, rule, where, "%s parked in `%s` is returned as it is, nothing is polled in between" % (kind, body.locals[L].get("name") or "_%d" % L),
+                      site=bi.describe(d[0]), path=probs)
+    return n
+
+
 def returns_of(bi, *kinds):
     return [r for r in returned_values(bi) if r[1] in kinds]
 
